@@ -20,6 +20,8 @@ from typing import List, Dict, Any
 from time import time, perf_counter
 from dataclasses import dataclass
 
+import numpy as np
+
 from syne_tune.constants import (
     ST_INSTANCE_TYPE,
     ST_INSTANCE_COUNT,
@@ -138,8 +140,16 @@ def _serialize_report_dict(report_dict: Dict[str, Any]) -> str:
     :return: serialized string of the reported metrics, an exception is raised if the size is too large or
     if the dictionary values are not JSON-serializable
     """
+
+    def np_encoder(obj):
+        if isinstance(obj, np.generic):
+            return obj.item()
+        raise TypeError(
+            f"Object of type {type(obj).__name__} is not JSON serializable"
+        )
+
     try:
-        report_str = dump_json_with_numpy(report_dict)
+        report_str = json.dumps(report_dict, default=np_encoder)
         assert sys.getsizeof(report_str) < 50_000
         return report_str
     except TypeError as e:
